@@ -90,7 +90,7 @@ def run_shard(sh):
     jscases = []
     for qi, q in enumerate(sp_['qs'][sh['lo']:sh['hi']]):
         gi = sh['lo'] + qi
-        sp = refql.Spelling(eq_single=(gi % 2 == 1), swap_on=(gi % 3 == 1))
+        sp = refql.Spelling(eq_single=(gi % 2 == 1), swap_on=(True if gi % 3 == 1 else ('odd' if gi % 3 == 2 else False)))       # all pairs a-first / all b-first / mixed inside one ON list
         text = refql.render(q, 'py', sp)
         for B, A in [(B_, A_) for B_ in tabsB for A_ in tabsA] + [(B_, A_) for B_ in tabsB_extra for A_ in tabsA_extra]:
             if True:
